@@ -14,6 +14,7 @@ import re
 import vlib
 import tie
 import gen_stream
+import stream_util
 
 RULE = ("case = (byte stream, way of cutting it into arrivals) on a TCP server session; streams are "
         "1..6 serialised messages (all four Len forms, tokens 0..300 incl. both extended forms, "
@@ -146,7 +147,7 @@ def build_cases(run, r):
     cs = Cases()
     quick = run.tier == "quick"
     # 1. exhaustive 1-, 2- (and 3-) cut placements on short streams
-    n_small = 14 if quick else 60
+    n_small = 24 if quick else 90
     for i in range(n_small):
         stream, meta = gen_stream.gen_tcp_stream(r, small=True)
         tries = 0
@@ -163,7 +164,7 @@ def build_cases(run, r):
         cuts.append(("x1", "bytewise"))
         cs.add(0, stream, cuts, meta)
     # 2. random streams, aimed chunkings
-    n_rand = 420 if quick else 9000
+    n_rand = 1000 if quick else 12000
     for i in range(n_rand):
         big = (i % 12 == 0)
         stream, meta = gen_stream.gen_tcp_stream(r, allow_big=big)
@@ -193,6 +194,21 @@ def build_cases(run, r):
         cuts = [("x1472", "rxbuf"), ("x2944", "rxbuf"), ("%d" % len(f1), "aimed"),
                 ("1472,1472", "rxbuf"), ("%d,%d" % (1472, len(f1) - 1472 + 1), "rxbuf")]
         cs.add(0, stream, cuts, meta)
+    # 4. sizes aimed at the per-session cap (csm_max_message_size)
+    for i in range(12 if quick else 150):
+        mtu = r.choice([64, 100, 271, 272, 300, 1152, 1153, 65808, 65809, 70000])
+        d = r.choice([-1, 0, 0, 1, 1, 2])
+        f = gen_stream.gen_capfit(r, mtu, d)
+        g, _ = gen_stream.gen_tcp_msg(r, "ping")
+        stream = g + f + g
+        meta = {"kinds": ["ping", "capfit", "ping"], "tail": "capfit%+d" % d,
+                "hot": list(range(len(g) + 1, len(g) + 1 + gen_stream.tcp_hdr_len(f[0])))}
+        cuts = []
+        for _ in range(3):
+            tok, kind = gen_stream.random_cuts(r, len(stream), meta["hot"])
+            if tok != "-":
+                cuts.append((tok, kind))
+        cs.add(mtu, stream, cuts, meta)
     return cs
 
 
@@ -232,7 +248,8 @@ def main(run):
     drv = vlib.build_driver("h_stream", ["h_stream.c"], wraps=WRAPS)
 
     # constants of the build vs. the instantiation of the model
-    om, oc, _ = tie.run_both(model, drv, ["tcpconsts"])
+    om = stream_util.run_cases(model, ["tcpconsts"])
+    oc = stream_util.run_cases(drv, ["tcpconsts"])
     if om[0] != oc[0]:
         run.violation("constants of the build differ from the model's: model %s, build %s" % (om[0], oc[0]),
                       "correspondence case: tcpconsts\nmodel: %s\nbuild: %s\n" % (om[0], oc[0]),
@@ -256,23 +273,33 @@ def main(run):
         gen = build_cases(run, r)
         cs.groups.extend(gen.groups)
     lines, idx = cs.lines()
-    om, oc, crashes = tie.run_both(model, drv, lines)
-    run.cov["driver_crashes"] = len(crashes)
-    for (i, rc, err) in crashes[:2]:
-        run.violation("driver crashed (rc=%d) on a stream case" % rc,
-                      "case: %s\nstderr: %s\n" % (lines[i], err), tag="crash%d" % i)
+    om = stream_util.run_cases(model, lines)
+    oc = stream_util.run_cases(drv, lines)
+    bad = [i for i, o in enumerate(oc) if o == "HANG" or o.startswith("CRASH")]
+    run.cov["driver_crashes"] = len(bad)
+    for i in bad[:2]:
+        run.violation("coap_read_session %s on a scripted stream"
+                      % ("does not return (reader loops for ever)" if oc[i] == "HANG" else "crashes: " + oc[i]),
+                      "case: %s\nimplementation: %s\nmodel (proved reader): %s\n" % (lines[i], oc[i], om[i]),
+                      tag="crash%d" % i)
+    skip = set(i for i, o in enumerate(oc) if o in ("HANG", "<not run>") or o.startswith("CRASH"))
 
     def fails(mtu, stream, pts):
         tok = gen_stream.cuts_to_token(pts, len(stream))
         sx = stream.hex()
-        outs, _ = vlib.run_lines_robust(drv, ["tcp %d %s -" % (mtu, sx), "tcp %d %s %s" % (mtu, sx, tok)])
-        return oracle_view(outs[0]) != oracle_view(outs[1])
+        outs = stream_util.run_cases(drv, ["tcp %d %s -" % (mtu, sx), "tcp %d %s %s" % (mtu, sx, tok)],
+                                     timeout=10, per_case_timeout=5)
+        return oracle_view(outs[0]) != oracle_view(outs[1]) and "HANG" not in outs and "<not run>" not in outs
 
     ref = {}
     n_or_bad = n_tie_bad = n_tie_skipped = n_tie = 0
     for li, (gi, ci) in enumerate(idx):
         mtu, stream, cuts, meta = cs.groups[gi]
         co, mo = oc[li], om[li]
+        if li in skip or (ci is not None and gi not in ref):
+            if ci is None:
+                pass
+            continue
         if ci is None:
             ref[gi] = co
             tok, ckind = "-", "single"
@@ -298,8 +325,9 @@ def main(run):
             if n_or_bad <= 3:
                 spts = shrink(drv, mtu, stream, pts, fails) if len(pts) > 1 else pts
                 stok = gen_stream.cuts_to_token(spts, len(stream))
-                outs, _ = vlib.run_lines_robust(drv, ["tcp %d %s -" % (mtu, stream.hex()),
-                                                      "tcp %d %s %s" % (mtu, stream.hex(), stok)])
+                outs = stream_util.run_cases(drv, ["tcp %d %s -" % (mtu, stream.hex()),
+                                                   "tcp %d %s %s" % (mtu, stream.hex(), stok)],
+                                             timeout=10, per_case_timeout=5)
                 what = ("TCP session delivers different messages for two segmentations of one stream "
                         "(%d bytes, arrivals %s vs one arrival): %s  vs  %s"
                         % (len(stream), stok, split_out(outs[1])[0][:3] if split_out(outs[1]) else outs[1][:80],
